@@ -612,3 +612,16 @@ Example C02_helper_calls_helper :
     tlookup n_ident (fe_calls (p_fe ps)) = Some [[TInt]; [TFloat]].
 Proof. exact helper_calls_helper. Qed.
 Print Assumptions C02_helper_calls_helper.
+
+(* ---------------------------------------------------------------- narrower into wider
+   The guards above demand that every store infers the label the name finally has.  The declaration bookkeeping also tolerates
+   a store of a NARROWER label into a variable declared from a wider one (a = 2.5 ; a = 1): the C++ conversion is exact.
+   What is not sound is the label table afterwards (C02_script_guard_excludes_refuted_witnesses: flow_script); programs with
+   such stores are covered by the value oracles (c)/(d), whose generators never read a name while its label is below its
+   declared one. *)
+Theorem C02_narrower_store_is_exact :
+  forall u t v,
+    scalar t = true -> sub_ty u t -> repr u v ->
+    exists w, c_store (cpp_type t) v = Some w /\ crepr (cpp_type t) w /\ same_num v w.
+Proof. exact narrower_store_exact. Qed.
+Print Assumptions C02_narrower_store_is_exact.
